@@ -46,6 +46,15 @@ CHECKS = {
  "C14": dict(cat="exploration", tech="differential property-based testing against a Fraction reference; exhaustive small grids over all operand type pairs",
    text="Every fixed-point operator, for every operand type pair (fixed-point, secret int, secret bool, int, float; both orders), is run on complete grids of scaled values at resolution 3 [thorough: four (resolution, bitlength, field) grids] and on random dyadic operands over resolutions 0..12 and compared with exact Fraction arithmetic on the represented numbers; returned values must agree, and inside the documented domain the call must return. Grids exhaustive for their configuration; otherwise exploration.",
    note=TB + "; Fraction reference of the documented semantics (harness/checks/c14.py).", ref="4 (C14), 3"),
+ "C10": dict(cat="exploration", tech="property-based testing: generated programs and backend-level traces, independent decoder of the iden3 formats, comparison with a recorder trace",
+   text="Generated IR programs (replayed at the backend interface) and directly generated interface-level traces with adversarial scalars and witness values drive the real snarkjs backend next to the recorder; both files written by prove() are read by an independent decoder that re-checks every declared length, and the decoded wires, values and constraints are compared with the recorder's under the documented numbering. Exploration.",
+   note=TB + "; harness/decoders/iden3.py stands in for snarkjs' parser (not available offline); nLabels / label map not judged.", ref="4 (C10)"),
+ "C11": dict(cat="exploration", tech="property-based testing per field configuration: own FlatBuffers reader, recorder comparison, metamorphic re-run with other private values",
+   text="As C10 for the three zkinterface configurations through their own modules: message sequence per file, header ids/values/free id/field maximum, witness ids, canonical coefficients, decoded-vs-recorded constraints and satisfaction, and byte-identity of circuit.zkif when only private values change. Exploration.",
+   note=TB + "; the flatbuffers package is replaced by a stand-in builder (harness/shims/fb) and the consumers by harness/decoders/fbreader.py.", ref="4 (C11), 2.5"),
+ "C13": dict(cat="exploration", tech="property-based testing of expression trees on each backend's linear-combination class with a representation-level evaluator; number-theoretic checks of modulus and inverse",
+   text="Random expression trees with adversarial scalars are built on each proof-producing backend's own LC class (snarkjs, three zkinterface configurations, qaptools) and evaluated through the representation; operands are snapshotted around every operation; get_modulus() is compared with the group order recomputed from the curve definition and tested for primality; fieldinverse is checked on non-zero, negative, unreduced and zero-congruent arguments. Exploration; libsnark's native class is not covered.",
+   note=TB + "; libsnark is not installed and cannot be: its C++ LC class is outside this check.", ref="4 (C13)"),
 }
 PENDING = {}
 
